@@ -9,8 +9,8 @@ class C11(LoopCheck):
     pid = "C11"
     props = {"C11"}
     flows = ("resume",)
-    thorough_schedules = ["fixed1", "fixed2", "fixed4", "adaptive_half", "adaptive_cap3"]
-    adaptive_N3 = ("adaptive_half", "adaptive_cap3")
+    thorough_schedules = ["fixed1", "fixed2", "fixed4", "adaptive_half"]
+    adaptive_N3 = ("adaptive_half",)
     required_labels = ["c11/resume/ladder", "c11/resume/history_len", "c11/resume/evidence", "c11/resume_constructor/ladder", "c11/resume_constructor/evidence"]
 
     def configs(self, tier):
